@@ -33,7 +33,13 @@ def gen_sequence(rng, idx):
     ops, pts = [], []
     for _ in range(n):
         r = rng.random()
-        if pts and r < 0.30:
+        if pts and r < 0.06 and not transform:
+            # a DISTINCT point within rounding distance of a logged one (a refined mesh far from the origin): must never be
+            # treated as a repeat (only exactly equal points are merged)
+            x = list(rng.choice(pts))
+            k = rng.randrange(D)
+            x[k] = x[k] + rng.choice([2.0 ** -30, -2.0 ** -30, 2.0 ** -40]) * max(1.0, abs(x[k]))
+        elif pts and r < 0.30:
             x = list(rng.choice(pts))                                # exact repeat
         elif pts and r < 0.55:
             base = list(rng.choice(pts))                             # share k<D coordinates
